@@ -1,4 +1,7 @@
 """C09 — node, path, branch and segment views are faithful windows onto their tree."""
+import math
+import warnings
+
 import numpy as np
 
 from harness import gen
@@ -395,7 +398,92 @@ class Collections(Suite):
         return not res.get("skip") and res.get("n", 0) >= 2
 
 
-SUITES = [History(), Collections()]
+class Accessors(Suite):
+    """the remaining windows: iteration over a path / branch, the deprecated `get_node`, original ids, node handles' own accessors
+    (`xyz`, `xyzr`, `keys`, `detach`, `distance`), and branches built from coordinate arrays (`Branch.from_xyzr`, `from_xyzr_batch`)"""
+    name = "c09.accessors"
+
+    def cases(self, rng, tier, widen):
+        out = []
+        k = 0
+        for n in [1, 2, 3, 5, 8, 13] + ([40] if tier == "thorough" or widen else []):
+            for _ in range(3):
+                pids = gen.renumber_root0(rng, gen.parents_sorted(rng, n, gen.pick_shape(rng, k))); k += 1
+                nn = len(pids)
+                t = {"n": nn, "pids": pids, "types": [1] + [rng.choice([2, 3, 4]) for _ in range(nn - 1)],
+                     "xyz": [[float(rng.randint(-30, 30)) for _ in range(3)] for _ in range(nn)], "r": [float(rng.randint(1, 9)) for _ in range(nn)]}
+                idx = [rng.randrange(nn) for _ in range(rng.randint(1, 5))]
+                out.append({"class": "views", "tree": t, "idx": idx, "cols": rng.choice([3, 4]), "batch": rng.randint(1, 3)})
+        return out
+
+    def run(self, case):
+        from swcgeom.core import Branch, Path
+
+        t = gen.make_tree(case["tree"])
+        idx = np.array(case["idx"], dtype=np.int32)
+        res = {}
+        with warnings.catch_warnings():
+            warnings.simplefilter("ignore")
+            for name, V in (("path", Path), ("branch", Branch)):
+                v = V(t, idx)
+                res[name] = {"iter_ids": [int(nd.id) for nd in v], "iter_x": [float(nd.x) for nd in v], "len": len(v),
+                             "get_node": [int(v.get_node(j).id) for j in range(len(v))], "origin_id": [int(q) for q in v.origin_id()],
+                             "origin_pid": [int(q) for q in v.origin_pid()], "keys": sorted(str(q) for q in v.keys())}
+            nd = t.node(int(idx[0]))
+            d = nd.detach()
+            res["node"] = {"xyz": [float(q) for q in nd.xyz()], "xyzr": [float(q) for q in nd.xyzr()], "keys": sorted(str(q) for q in nd.keys()),
+                           "detached": {c: float(np.asarray(d.get_ndata(c) if hasattr(d, "get_ndata") else d[c]).reshape(-1)[0]) for c in ("x", "y", "z", "r", "type")},
+                           "dist0": float(nd.distance(t.node(0)))}
+            m = len(case["idx"]) + 2      # (from_xyzr_batch insists on at least three points per branch)
+            arr = np.array([[float(i + 1), float(2 * i), float(-i), 0.5 + i][: case["cols"]] for i in range(m)], dtype=np.float32)
+            b = Branch.from_xyzr(arr)
+            bb = Branch.from_xyzr_batch(np.stack([arr + j for j in range(case["batch"])]))
+            res["from_xyzr"] = {"xyzr": np.asarray(b.xyzr()).astype(float).tolist(), "pid": [int(q) for q in b.get_ndata("pid")], "id": [int(q) for q in b.get_ndata("id")],
+                                "batch": [np.asarray(x.xyzr()).astype(float).tolist() for x in bb], "batch_pid": [[int(q) for q in x.get_ndata("pid")] for x in bb],
+                                "independent": not any(np.shares_memory(x.get_ndata("x"), y.get_ndata("x")) for i, x in enumerate(bb) for y in bb[i + 1:])}
+        return res
+
+    def oracle(self, case, res):
+        t = case["tree"]
+        if "exc" in res:
+            return [("accessor-raises", f"{res['exc']}: {res.get('msg')}")]
+        out = []
+        idx = case["idx"]
+        for name in ("path", "branch"):
+            v = res[name]
+            want_pid = [t["pids"][i] for i in idx]
+            if v["iter_ids"] != idx or v["get_node"] != idx or v["origin_id"] != idx or v["len"] != len(idx) or v["origin_pid"] != want_pid \
+                    or v["iter_x"] != [float(t["xyz"][i][0]) for i in idx]:
+                out.append(("view-iteration", f"a {name} over nodes {idx}: iteration gives {v['iter_ids']}, get_node {v['get_node']}, origin ids {v['origin_id']} / parents {v['origin_pid']} (expected {want_pid})"))
+            if v["keys"] != sorted(["id", "type", "x", "y", "z", "r", "pid"]):
+                out.append(("view-keys", f"keys of a {name}: {v['keys']}"))
+        i0 = idx[0]
+        nd = res["node"]
+        if nd["xyz"] != [float(c) for c in t["xyz"][i0]] or nd["xyzr"] != [float(c) for c in t["xyz"][i0]] + [float(t["r"][i0])]:
+            out.append(("node-read", f"node {i0}.xyz()/xyzr() = {nd['xyz']} / {nd['xyzr']}"))
+        want_d = {"x": t["xyz"][i0][0], "y": t["xyz"][i0][1], "z": t["xyz"][i0][2], "r": t["r"][i0], "type": t["types"][i0]}
+        if any(float(nd["detached"][c]) != float(want_d[c]) for c in want_d):
+            out.append(("copy-content", f"detached copy of node {i0} holds {nd['detached']}, the node has {want_d}"))
+        if abs(nd["dist0"] - math.dist(t["xyz"][i0], t["xyz"][0])) > 1e-4:
+            out.append(("node-read", f"distance of node {i0} to node 0: {nd['dist0']}"))
+        fx = res["from_xyzr"]
+        m = len(idx) + 2
+        rows = [[float(i + 1), float(2 * i), float(-i), (0.5 + i) if case["cols"] == 4 else 1.0] for i in range(m)]
+        if fx["xyzr"] != rows or fx["pid"] != list(range(-1, m - 1)) or fx["id"] != list(range(m)):
+            out.append(("from-xyzr", f"Branch.from_xyzr of {case['cols']}-column rows: {fx['xyzr'][:3]}…, parents {fx['pid']}"))
+        for j, bx in enumerate(fx["batch"]):
+            want = [[r_[0] + j, r_[1] + j, r_[2] + j, (r_[3] + j) if case["cols"] == 4 else 1.0] for r_ in rows]
+            if bx != want or fx["batch_pid"][j] != list(range(-1, m - 1)):
+                out.append(("from-xyzr", f"Branch.from_xyzr_batch member {j}: {bx[:2]}…, expected {want[:2]}…")); break
+        if not fx["independent"]:
+            out.append(("copy-shares-storage", "branches of one from_xyzr_batch call share storage"))
+        return out[:3]
+
+    def nontrivial(self, case, res):
+        return len(case["idx"]) >= 2
+
+
+SUITES = [History(), Collections(), Accessors()]
 TECHNIQUE = ("Lean 4 theorems about a heap model of owners, arrays and index-holding views (a view's read is the owner's current content at its indices after any "
              "history; a tree-node write lands in the owner and is seen by every view; copy / detach allocate fresh arrays, so for every later interleaving of "
              "writes neither side sees the other's; segment construction) + differential correspondence on random operation histories + np.shares_memory oracle")
